@@ -1,7 +1,7 @@
 import CryoCat.Drv.Proto
 import CryoCat.Model.C09
-/-! Driver of C09: executes `oob / oobAsIs / oobCode`, `trim / trimCode`, `cleanPoints`,
-`cleanMaskStmt / cleanMask / cleanMaskCode / cleanMaskById / cleanMaskOld` of `Model/C09.lean` at `Rat`.
+/-! Driver of C09: executes `oob / oobCode`, `trim / trimCode`, `cleanPointsStmt / cleanPoints`,
+`cleanMaskStmt / cleanMaskArg / cleanMaskArgCode / cleanMaskArgSorted / cleanMaskById / cleanMaskOld` of `Model/C09.lean` at `Rat`.
 All numbers travel as integers `n` meaning `n / scale` (`scale` a power of two); results are
 `[numerator, denominator]` pairs of normalised rationals. -/
 namespace CryoCat.Drv.C09
@@ -80,8 +80,9 @@ def handle (j : Json) : Json :=
         match (getArr? j "dims" >>= intRows) >>= (·.mapM (dimOf scale)), getStr? j "bt" with
         | some dims, some bt =>
           let box := getNat? j "box"
+          -- `spec`: the statement (`oob_spec`); `code`: the model at today's operators (`oobCode_is`: the recorded unrepaired
+          -- `oobAsIs` of finding C09-K1, or `oob` once repaired)
           Json.mkObj [("spec", oobJson (oob dims (btOf bt) box l)),
-                      ("asis", oobJson (oobAsIs dims (btOf bt) box l)),
                       ("code", oobJson (oobCode dims (btOf bt) box l))]
         | _, _ => err "bad-args"
       | "trim" =>
@@ -92,8 +93,10 @@ def handle (j : Json) : Json :=
       | "points" =>
         match (getArr? j "pts" >>= intRows) >>= (·.mapM (ptOf scale)), getInt? j "r" with
         | some pts, some r =>
-          let out := rowsJson (cleanPoints (q scale r) pts l)
-          Json.mkObj [("spec", out), ("code", out)]
+          -- `spec`: the statement (input order, `cleanPointsStmt_spec`); `code`: the per-tomogram loop of the source
+          -- (`cleanPoints_perm_stmt`: a permutation of it, `cleanPoints_tomogram_order`: same order inside every tomogram)
+          Json.mkObj [("spec", rowsJson (cleanPointsStmt (q scale r) pts l)),
+                      ("code", rowsJson (cleanPoints (q scale r) pts l))]
         | _, _ => err "bad-args"
       | "mask" =>
         match getArr? j "tomos" >>= ints, (getArr? j "masks").bind (·.toList.mapM (maskOf binarizeCfgDoc scale)),
@@ -101,6 +104,8 @@ def handle (j : Json) : Json :=
         | some tomos, some masks, some masksCode =>
           let ts := tomos.map (q scale)
           let single := (j.getObjValAs? Bool "single").toOption.getD false
+          let fromFile := (j.getObjValAs? Bool "from_file").toOption.getD false
+          let ta : TomoArg Rat := if fromFile then .fromFile ts else .asGiven ts
           match single, masks with
           | true, [] => err "bad-args"
           | _, _ =>
@@ -109,9 +114,12 @@ def handle (j : Json) : Json :=
               | _, ms => .perTomo ms
             -- `spec` is the STATEMENT (filter by `¬ onZeroVoxel`, `cleanMaskStmt_spec`), `model` the documented code model,
             -- `code` the model at today's operators, `byid` / `old` the two repaired defects (regression)
-            Json.mkObj [("spec", maskJson (cleanMaskStmt truncRat ts (mk masks) l)),
-                        ("model", maskJson (cleanMask truncRat ts (mk masks) l)),
-                        ("code", maskJson (cleanMaskCode truncRat ts (mk masksCode) l)),
+            -- the list AS GIVEN is what the statement pairs with the masks (`ta.values`), whatever the form of the argument;
+            -- `code` loads it the way today's source does (`tltLoad`, a file sorted iff the effective sort_angles holds)
+            Json.mkObj [("spec", maskJson (cleanMaskStmt truncRat ta.values (mk masks) l)),
+                        ("model", maskJson (cleanMaskArg truncRat ta (mk masks) l)),
+                        ("code", maskJson (cleanMaskArgCode truncRat ta (mk masksCode) l)),
+                        ("sortedfile", maskJson (cleanMaskArgSorted truncRat ta (mk masks) l)),
                         ("byid", maskJson (cleanMaskById truncRat ts (mk masks) l)),
                         ("old", maskJson (cleanMaskOld truncRat ts (mk masks) l))]
         | _, _, _ => err "bad-args"
